@@ -21,6 +21,8 @@ type c16Turn struct {
 	// Bare: the cancel continuation carries the empty-schema batch a client
 	// sends when it has no input to give, not an input-shaped one
 	Bare bool `json:"bare,omitempty"`
+	// CancelSpelling: index into lib.CancelValues of the cancel key's value.
+	CancelSpelling int `json:"cancel_spelling,omitempty"`
 	// External: the input travels as an uploaded object and the request is a
 	// pointer to it. "plain": the object is the input batch with the user
 	// metadata; "tokens": the object itself also carries the request's cursor
@@ -85,6 +87,7 @@ func genC16(t *rapid.T) c16Case {
 		if rapid.IntRange(0, 7).Draw(t, "cancel") == 0 {
 			tu.Cancel = true
 			tu.Bare = rapid.Bool().Draw(t, "barecancel")
+			tu.CancelSpelling = lib.GenCancelSpelling(t)
 		} else if rapid.IntRange(0, 4).Draw(t, "external") == 0 {
 			tu.External = []string{"plain", "tokens"}[rapid.IntRange(0, 1).Draw(t, "externalkind")]
 		}
@@ -132,7 +135,10 @@ func runC16(c c16Case) (out lib.Outcome) {
 		var extra [][2]string
 		extra = append(extra, tu.After...)
 		if tu.Cancel {
-			extra = append(extra, [2]string{lib.KCancel, "1"})
+			extra = append(extra, [2]string{lib.KCancel, lib.CancelValue(tu.CancelSpelling)})
+			if lib.CancelValue(tu.CancelSpelling) == "" {
+				out.Label("cancel-value-empty")
+			}
 		}
 		if tu.External != "" {
 			// upload the input (with its user metadata, and for "tokens" the tokens too) and send a pointer
@@ -300,7 +306,7 @@ var propC16 = lib.Prop[c16Case]{
 		"oracle per request: exactly one Exchange call; accepted -> one data batch carrying a fresh cursor that the next turn accepts; failed -> one exception and no cursor; cancel -> hook once, empty stream, no cursor; handler InputMetadata = request metadata minus the three framework keys in order and never a token. Non-trivial: >=2 executed turns with user metadata present.",
 	Gen:          genC16,
 	Run:          runC16,
-	Essential:    []string{"cancel", "cancel-bare", "external-input:tokens", "failed-turn", "user-metadata", "cursor-key-collision"},
+	Essential:    []string{"cancel", "cancel-bare", "cancel-value-empty", "external-input:tokens", "failed-turn", "user-metadata", "cursor-key-collision"},
 	EssentialMin: 200,
 }
 
